@@ -385,4 +385,40 @@ def rule_h(ctx: Ctx) -> None:
                 '(incomplete_root / pruned_root) to decide when the root reaches the driver.')
 
 
-RULES = [rule_a, rule_b, rule_c, rule_d, rule_e, rule_f, rule_g, rule_h]
+def rule_i(ctx: Ctx) -> None:
+    """Document-wide constraints span the streamed chunks also when decoding: the chunk decoder (raw_decoder) yields its
+    end-of-run reference errors *after* its last result, so whoever consumes it must run it to exhaustion."""
+    rule = 'C06.i'
+    f = ctx.idx.method(SCHEMA, 'raw_decoder')
+    ctx.analysed(f.qualname)
+    g = cfg_of(ctx, f)
+    loops = [n for n in g.nodes if n.kind == 'for' and text(n.ast.iter) == 'selector']
+    tail = [n for n, y in _yields(g) if isinstance(y, ast.YieldFrom) and '_validate_references' in text(y.value)]
+    after = set()
+    if loops:
+        after = g.reachable([m for m, lab in g.succ[loops[0]] if lab == 'F'], kinds='nTF')
+    has_tail = bool(tail) and all(t in after for t in tail)
+    ctx.ob(rule, 'raw_decoder reports dangling IDREFs / key references of the chunks after the last chunk', f.loc(tail[0].ast) if tail else f.loc(), has_tail, '',
+           key='raw_decoder|tail-errors', nontrivial=False)
+    doc = ctx.idx.module('documents')
+    enc = [fn for q, fn in ctx.idx.functions.items() if q.startswith('xmlschema.documents.get_lazy_json_encoder') and fn.name == 'default']
+    if not enc:
+        raise AnalysisError('missing anchor xmlschema.documents.get_lazy_json_encoder.<locals>.JSONLazyEncoder.default')
+    d = enc[0]
+    ctx.analysed(d.qualname)
+    gd = cfg_of(ctx, d)
+    lp = [n for n in gd.nodes if n.kind == 'for' and text(n.ast.iter) == 'obj']
+    early = [r for r in gd.nodes if r.kind == 'return' and lp and any(r.ast is x for b in lp[0].ast.body for x in ast.walk(b))]
+    # one result per placeholder: the generator is left suspended after the last result unless something drains it
+    drains = [fn for fn in ctx.idx.iter_functions('documents') if not isinstance(fn.node, ast.Lambda) and fn.name in ('to_json',)
+              and any(isinstance(x, ast.For) and 'decoder' in text(x.iter) for x in ast.walk(fn.node))]
+    ok = not (has_tail and early) or bool(drains)
+    ctx.ob(rule, 'the consumer of the lazy chunk decoder runs it to exhaustion (the errors after the last chunk are collected)', d.loc(early[0].ast) if early else d.loc(), ok,
+           '' if ok else 'JSONLazyEncoder.default takes one result per placeholder and returns; after the last chunk nothing resumes the generator, so the reference errors '
+           'that raw_decoder yields after its loop are never produced: lazy to_json()/decode() of a document with a dangling IDREF inside the chunks report no error, '
+           'the full run reports it', key='lazy-json|decoder-not-exhausted')
+    ctx.explain(f'{rule}: raw_decoder yields `_validate_references` after its loop; the only consumer of the lazy decoder returns from inside '
+                'its loop and no caller drains the generator afterwards.')
+
+
+RULES = [rule_a, rule_b, rule_c, rule_d, rule_e, rule_f, rule_g, rule_h, rule_i]
